@@ -217,7 +217,7 @@ def augment_with_impl(text, impl_out):
     return "\n".join(res) + "\n"
 
 
-NONPRODUCING = {"case", "gravity", "q", "qd", "qdd", "tau", "fext", "poison", "impl", "#", "cs_new", "cs_bind", "cs_solver", "cs_actuation", "cs_vplus", "luaload", "luarm", "luafile", "luaend"}
+NONPRODUCING = {"case", "gravity", "q", "qd", "qdd", "tau", "fext", "poison", "impl", "#", "cs_new", "cs_bind", "cs_solver", "cs_bg", "cs_copyprobe", "cs_actuation", "cs_vplus", "luaload", "luarm", "luafile", "luaend"}
 
 
 def split_lines(out):
